@@ -133,7 +133,7 @@ def _replay(chunk, arg):
     W = World(zoo.BASIC, arg["poolset"])
     viol, n, nontriv = [], 0, set()
     for case in chunk:
-        vs = check_case(W, case)
+        vs = core.safe(check_case, case, W, case)
         for pr in case.get("pruns", []):
             n += 3 * len(pr["fruns"])
             for fr in pr["fruns"]:
